@@ -93,6 +93,8 @@ FIXED += [
     ("C20", "a66801f", "hg / docker: a symbolic link was judged by its resolved target (`link.log` not ignored by `*.log`, a link to an ignored file omitted, dangling links never matched) (audit agent; C20's trees now contain links)", []),
     ("C20", "e57cb1e", "dockerignore: an exception below an excluded directory (`sub`, `!sub/keep.txt`) never re-included the file - ignored directories were pruned (audit agent; C20's docker oracle had pruned too - an error of the check corrected first: Docker's matcher decides per path)", []),
     ("C07", "808ff21", "SUM / AVG over an integer-valued expression with negative values (`sum(size - 100)`, `sum(-size)` = 0): negative cells were skipped because the sum was unsigned (audit agent; C07's inner expressions now include arithmetic with negative values)", []),
+    ("C09", "4601e26", "group rows came in hash-map order, different on every run: with LIMIT a grouped query returned another SET of rows each time, so two formats of one query disagreed (second audit; exposed by the LIMIT-on-groups repair c4b7fa4; C09 now limits grouped queries too)", []),
+    ("C08", "e77a933", "`select count(*) from . group by ext` printed one group only: the implicit `limit 1` of select lists that need no file attribute met the LIMIT-on-groups repair c4b7fa4 (second audit; C08 now also runs every case with the keys not displayed)", []),
     ("C10", "9b6a0a7", "day('2020-0\u0661-01'): the date pattern matched non-ASCII digits and the integer parse of the capture was unwrapped (found by the eval_total fuzz target after 2e7 executions)", ["date-non-ascii-digit"]),
     ("C10", "69a0b27", "`name from './[a' depth 1 rx`: a malformed pattern in a regexp search root panicked (unwrap of Regex::new)", ["regexp-root-malformed"]),
 ]
